@@ -345,6 +345,12 @@ func checkOp(r *Report, a *API, name string, spec *OpSpec, aspects aspectSet) {
 					}
 				}
 			})
+			for _, e := range p.Events {
+				if e.Kind == "nilderef" {
+					acc.note("A0 "+name+" nil-dereference", false, fmt.Sprintf("dereferences the reply field %s, which is nil when its bytes did not decode, without a nil check on this path (%s) [%s]", e.Name, a.P.Pos(e.Pos), cut(p.Cond, 200)))
+				}
+			}
+			acc.note("A0 "+name+" nil-dereference", true, "")
 			// A7 arguments untouched
 			for _, e := range p.Stores {
 				tgt := e.Args[0].String()
